@@ -205,6 +205,8 @@ def add_special_shapes(root: File, rng) -> None:
         gen.add_same_name_shapes(root, rng, ext_ok=root_has_ext(root))
     if root_has_ext(root):
         add_coincidence_shapes(root, rng)
+    if rng.random() < 0.4:
+        gen.add_empty_shapes(root, rng, ext_ok=root_has_ext(root))
 
 
 def add_coincidence_shapes(root: File, rng) -> None:
